@@ -48,7 +48,7 @@ def check(run):
                    'Spec/XmlChars.v: transcription of XML 1.0 5th ed. productions [2] [4] [4a] [13] [81]',
                    'harness/src/chars.rs sweep over all scalar values', 'extraction (ExtrOcamlBasic only) + ocaml/driver.ml']
     proved, _ = lib.proof_step(run, 'C18', ['T1', 'T2'])
-    okr, mok, sok = lib.build_binaries(run, model_areas=['chars'], spec_areas=['chars'])
+    okr, mok, sok = lib.build_binaries(run, model_areas=['chars', 'peg'], spec_areas=['chars'])
     okm = mok.get('chars', False)
     from . import names
     if okr:
@@ -81,7 +81,7 @@ def check(run):
                 run.tie_breaks.append('model has no predicate %s' % p)
         run.extra['exhaustive'] = True
         run.extra['scalar_values_swept'] = counts.get('is_char', (0, 0))[1]
-    names.check_names(run, okr, okm)
+    names.check_names(run, okr, mok.get('peg', False))
     return run.finish(level='proof',
         rule='classes: all 1,112,064 scalar values x 5 predicates, distinct = maximal runs; names: strings over class representatives, distinct by (production, string), non-trivial = non-empty',
         assumptions=['Rust char = Unicode scalar value', 'model of the nom combinators (Model/Nom.v) tied by the prod correspondence only'])
